@@ -13,7 +13,33 @@
  * every path of the universe given by the init step is queried from the root
  * (and, with a view, every relative path through the view).
  */
+#undef malloc
+#undef free
+#undef calloc
+#undef realloc
+
 #include "drv.h"
+
+/*
+ * Allocation seam for node blocks only: node_new.c and node_destroy.c of the
+ * repository are compiled into this program with -Dmalloc=vf_malloc
+ * -Dfree=vf_free (no source change); every other file uses the C library
+ * directly.  node_blocks = elements of the store that are allocated.
+ */
+static long node_blocks;
+void *vf_malloc(size_t n)
+{
+	void *p = malloc(n);
+	if (p) node_blocks++;
+	return p;
+}
+void vf_free(void *p)
+{
+	if (p) node_blocks--;
+	free(p);
+}
+void *vf_calloc(size_t a, size_t b) { return calloc(a, b); }
+void *vf_realloc(void *p, size_t n) { return realloc(p, n); }
 
 #include "config/config_global.c"   /* the repository's file, unchanged */
 
@@ -34,6 +60,7 @@ static void drv_reset(void)
 {
 	static const MPT_STRUCT(path) empty = MPT_PATH_INIT;
 	nodeGlobal = 0;           /* previous behaviour's elements are simply dropped */
+	node_blocks = 0;
 	viewmt = 0;
 	viewcfg = 0;
 	po = empty;
@@ -81,6 +108,7 @@ static void emit_store(struct cmd *c, const char *ret, const char *retval, int i
 	}
 	if (isval) j_val("ret", retval);
 	else j_str("ret", ret);
+	j_int("nodes", node_blocks);
 	j_arr_open("all");
 	for (i = 0; i < nuni; i++) {
 		char *v = lookup(0, uni[i], usep);
